@@ -124,6 +124,17 @@ def residue_programs():
     for n in RESIDUE_NAMES:
         for f in firsts:
             out.append((f % {'n': n}, second % {'n': n}))
+    # values that compare equal but differ in type (what a memo table, a set or a dict key would conflate), in both orders
+    equal_values = [('2 * 30', '2.0 * 30'), ('1 | 1', 'True | True'), ('0 + 5', '0j + 5'), ('10 - 10', '10 - 10.0'), ('4 * 1', '4 * 1.0'),
+                    ('2 ** 8', '2.0 ** 8'), ('7 // 2', '7.0 // 2'), ('1 + 1', 'True + True'), ('3 * 0', '3 * -0.0')]
+    for a, b in equal_values:
+        for x, y in ((a, b), (b, a)):
+            out.append(('timeout_value = %s\nprint(timeout_value)\n' % x, 'timeout_value = %s\nprint(timeout_value)\n' % y))
+    hoisted = [("['text', 'text', 'text', 'text']", "[b'text', b'text', b'text', b'text']"), ('[1, 1, 1, 1, 1, 1, 1, 1]', '[True, True, True, True, True, True, True, True]'),
+               ('[0.0, 0.0, 0.0, 0.0, 0.0, 0.0]', '[False, False, False, False, False, False]'), ('[None, None, None, None, None]', '[False, False, False, False, False]')]
+    for a, b in hoisted:
+        for x, y in ((a, b), (b, a)):
+            out.append(('def first_function():\n    return %s\n' % x, 'def second_function():\n    return %s\n' % y))
     return out
 
 
@@ -132,8 +143,11 @@ def residue(ctx, pool, limit):
     pairs = residue_programs()
     ctx.exhaustive['residue_first_forms_x_names'] = len(pairs)
     if limit < len(pairs):
-        ctx.rng.shuffle(pairs)
-        pairs = pairs[:limit]
+        # the value pairs (few) always run; the name forms are sampled
+        by_name = [p for p in pairs if 'consumer_function' in p[1]]
+        others = [p for p in pairs if 'consumer_function' not in p[1]]
+        ctx.rng.shuffle(by_name)
+        pairs = others + by_name[:max(0, limit - len(others))]
     n = 0
     for first, second in pairs:
         for kw in (dict(), dict(rename_globals=True), dict(rename_globals=True, hoist_literals=False)):
